@@ -526,6 +526,15 @@ func checkCache(h *History, vs []*opView) {
 		// ---- C08: truncated answers are never cached
 		if sr.tc {
 			h.S.Fail("C08", "tc-cached", "%s: served from cache an upstream answer that had TC set (upstream %s serial %d)", name, sr.up, sr.serial)
+			// C19: when that answer came from a background refresh, the complete
+			// entry it replaced was still usable
+			for _, prev := range list {
+				if prev.positive && !prev.tc && prev.up == sr.up && prev.reply.At < sr.reply.At && (!prev.groupKnown || prev.group == myGroup) &&
+					sr.reply.QueryAt >= prev.reply.At+upMin+prev.lifetime*3/4-time.Second && v.o.SentAt+clMax < prev.reply.At+upMin+prev.lifetime-2*time.Second {
+					h.S.Fail("C19", "failed-refresh-replaced-entry", "%s: the background refresh of a live entry (serial %d) was answered with TC set (serial %d) and that answer replaced the entry", name, prev.serial, sr.serial)
+					break
+				}
+			}
 		}
 		// ---- C08: an error never displaces a live positive entry
 		if !sr.positive {
